@@ -1128,6 +1128,18 @@ private:
       {
         try { c.listenerReady->set_value(false); } catch (...) {}
       }
+      if (c.t == Cmd::Connect)
+      {
+        // connect() already returned this session id to its caller (the command
+        // was pushed before the queue closed). It will never be processed, so
+        // report the close here - every id handed out gets exactly one onClose.
+        decltype(_cbs.onClose) closeCb;
+        { std::lock_guard<std::mutex> g(_cbMutex); closeCb = _cbs.onClose; }
+        if (closeCb)
+        {
+          closeCb(c.c.sid, TransportErrorInfo{TransportError::ShuttingDown, "shutdown", 0, 0});
+        }
+      }
     }
     if (_epollFd >= 0)
     {
